@@ -193,6 +193,20 @@ CHECKS = {
        "empty, zero values, undefined types, push/set on the wrong channel type, redefinitions, title/channel-type/label "
        "conflicts between threads) must end in a runtime abort or an emulation failure; two controls must pass.",
   note="Runs whose streams have equal clocks across threads are inconclusive (merge order unspecified)."),
+ "C20": dict(
+  cat="exploration", ref="DESIGN.md section 3, C20",
+  technique="runtime monitoring: bounded-exhaustive and random input-change sequences on the real sort.c+bay in an ASan+UBSan harness (outputs and written-set observed through emit callbacks); end-to-end -b runs with the sorted per-CPU values derived from the same run's cpu.prv as oracle",
+  text="(A) The real sort module wired to a real bay is driven in-process: every sequence of single-input changes over "
+       "{null,1,2,3} to depth 4/5 for 1-4 inputs, plus random sequences with up to 64 inputs, 64-bit values and several "
+       "inputs changing in one propagation. After each propagation the outputs must be the ascending sort of the inputs "
+       "(null as 0) and, for single-input changes, exactly the outputs whose value changed may have been written. (B) "
+       "nOS-V and Nanos6 histories in the runtime's shape (tasks of several types, pauses inside an API/blocking region, "
+       "subsystems, idle states, thread pauses and migrations, 2-6 CPUs) are emulated with -b; after every event the "
+       "breakdown rows read top to bottom must equal the sorted per-physical-CPU values computed from the same run's "
+       "cpu.prv (task type in a task body, else subsystem, else Unknown subsystem; the idle value when not Progressing), "
+       "and every breakdown value must be labelled.",
+  note="Bare task histories that leave a CPU 'in a task body without a task' are ambiguous and not generated. Rewrites "
+       "of unchanged rows are invisible in the .prv (duplicate suppression) and are decided on the module."),
 }
 
 NOT_YET = "check not implemented yet in this revision (work in progress, see DESIGN.md section 3)"
